@@ -4,6 +4,7 @@
 Require Import GSE.gen.Consts GSE.model.Base GSE.model.Types GSE.model.Header GSE.model.Ext GSE.model.Encap
   GSE.proofs.Tactics GSE.proofs.BaseLemmas GSE.proofs.HeaderLemmas.
 Open Scope N_scope.
+Set Default Proof Using "Type".
 
 Ltac consts :=
   unfold FIRST_FRAG_LEN in *;
@@ -104,14 +105,19 @@ Proof. intro H. rewrite <- (dropN_0 buf) at 1. change (dropN 0 buf) with ([] ++ 
   now apply write_next. Qed.
 
 (* ---------- encap ---------- *)
-Section WithCrc.
-Variable crc : list byte -> N -> N -> list byte -> N.
-
 Definition pkt_complete (l : label) (pt : N) (pdu : list byte) : list byte :=
   be16 (hdr_arith KComplete (label_type l) (lenN pdu + lenN (label_bytes l) + 2)) ++ be16 pt ++ label_bytes l ++ pdu.
 Definition pkt_first (l : label) (fid tl pt : N) (payload : list byte) : list byte :=
   be16 (hdr_arith KFirst (label_type l) (5 + lenN (label_bytes l) + lenN payload))
   ++ [fid] ++ be16 tl ++ be16 pt ++ label_bytes l ++ payload.
+
+Lemma lenN_pkt_complete l pt pdu : lenN (pkt_complete l pt pdu) = 4 + lenN (label_bytes l) + lenN pdu.
+Proof. unfold pkt_complete. rewrite !lenN_app, !lenN_be16. lia. Qed.
+Lemma lenN_pkt_first l fid tl pt p : lenN (pkt_first l fid tl pt p) = 7 + lenN (label_bytes l) + lenN p.
+Proof. unfold pkt_first. rewrite !lenN_app, !lenN_be16, lenN_cons, lenN_nil. lia. Qed.
+
+Section WithCrc.
+Variable crc : list byte -> N -> N -> list byte -> N.
 
 Definition encap_hl (s : enc_state) (pdu : list byte) (fid pt : N) (lab : label) (buf : list byte) : enc_out :=
   if is_zero6 lab then (s, buf, inr EInvalidLabel) else
@@ -130,11 +136,6 @@ Definition encap_hl (s : enc_state) (pdu : list byte) (fid pt : N) (lab : label)
     let pkt := pkt_first l fid tl pt (takeN pe pdu) in
     (s1, pkt ++ dropN (lenN pkt) buf,
      inl (Fragmented (lenN pkt) {| cf_id := fid; cf_crc := crc pdu pt tl (label_bytes l); cf_len := pe |})).
-
-Lemma lenN_pkt_complete l pt pdu : lenN (pkt_complete l pt pdu) = 4 + lenN (label_bytes l) + lenN pdu.
-Proof. unfold pkt_complete. rewrite !lenN_app, !lenN_be16. lia. Qed.
-Lemma lenN_pkt_first l fid tl pt p : lenN (pkt_first l fid tl pt p) = 7 + lenN (label_bytes l) + lenN p.
-Proof. unfold pkt_first. rewrite !lenN_app, !lenN_be16, lenN_cons, lenN_nil. lia. Qed.
 
 Lemma encap_spec s pdu fid pt lab buf : enc_wf s -> label_wf lab ->
   encap crc s pdu fid pt lab buf = Ret (encap_hl s pdu fid pt lab buf).
